@@ -108,6 +108,19 @@ def cases(tier, seed):
     add(net(n_lt=12, edges=edges_of([(P12[i], P12[(i + 1) % 12], 0.5 + 0.25 * i) for i in range(12)])), 'ring12')
     add(net(n_lt=12, edges=edges_of([('p0', P12[i], 0.5 + 0.25 * i) for i in range(12)])), 'hub12')
     add(net(n_lt=12, edges=edges_of([(P12[i ^ 1], P12[i], 0.5 + 0.25 * i) for i in range(12)])), 'pairs12')
+    # one-to-one projections between two groups of 12 (sparse: indexed path), the edges listed in / against node order
+    # and mapping node i to node perm(i); the permutations keep, move or swap the end points
+    S12, T12 = [f's{i}' for i in range(12)], [f'g{i}' for i in range(12)]
+    perms = {'identity': list(range(12)), 'reversed': list(range(11, -1, -1)),
+             'inner_pairs': [0] + [i ^ 1 if 1 <= i <= 10 and ((i - 1) ^ 1) + 1 <= 10 else i for i in range(1, 11)] + [11],
+             'rotate': [(i + 5) % 12 for i in range(12)], 'ends_swapped': [11] + list(range(1, 11)) + [0]}
+    perms['inner_pairs'] = [0, 2, 1, 4, 3, 6, 5, 8, 7, 10, 9, 11]
+    for pname, pm in perms.items():
+        # listing order permuted (edge k: s_pm[k] -> g_pm[k]) and mapping permuted (edge k: s_k -> g_pm[k])
+        add(net(n_s=12, n_t=12, edges=edges_of([(S12[pm[k]], T12[pm[k]], 0.5 + 0.25 * pm[k]) for k in range(12)])),
+            f'one2one12_listed_{pname}')
+        add(net(n_s=12, n_t=12, edges=edges_of([(S12[k], T12[pm[k]], 0.5 + 0.25 * k) for k in range(12)])),
+            f'one2one12_mapped_{pname}')
     if tier != 'quick':
         lt4 = ['p0', 'p1', 'p2', 'p3']
         for pat in patterns(lt4, lt4, 3):
